@@ -8,6 +8,8 @@ of C09 and C10.  Everything else (graph, observations) is `SchedJson`.
 Message texts: the job-submission failure event is the text "submission failed" in cylc-flow
 (`TaskEventsManager.EVENT_SUBMIT_FAILED`), which the `Sched` model spells "submit-failed" (the name of
 the output it completes); the literal text "submit-failed" is an ordinary unhandled message in cylc-flow.
+A failure with a run signal ("failed/ERR", "failed/SIGTERM", "aborted/<reason>") is the message "failed" of the
+model (`Msg.canon`, the model of `split_run_signal`).
 -/
 import CylcModel.SchedJson
 import CylcModel.Msg
@@ -18,7 +20,7 @@ namespace CylcModel.Msg
 def mapText (t : String) : String :=
   if t == "submission failed" then "submit-failed"
   else if t == "submit-failed" then "submit-failed (text)"
-  else t
+  else canon t
 
 def parseXOp (j : Json) : Except String XOp := do
   match jStrField? j "op" with
@@ -188,8 +190,18 @@ def phaseS : String → Nat
   | "waiting" => 0 | "preparing" => 1 | "submitted" => 2 | "submit-failed" => 2 | "running" => 3
   | "succeeded" => 4 | "failed" => 4 | _ => 0
 
+/-- judge side: a job reports a failure as `failed`, `failed/<SIGNAL>` (error / signal trap) or
+`aborted/<reason>`; all of them announce the status failed (written from the job-script protocol, not
+by calling the model's `canon`) -/
+def isFailMsg (m : String) : Bool :=
+  m == "failed" || m.startsWith "failed/" || m.startsWith "aborted/"
+
+/-- the message with a failure signal dropped -/
+def baseMsg (m : String) : String := if isFailMsg m then "failed" else m
+
 /-- the status a job message announces -/
-def msgStatus? : String → Option String
+def msgStatus? (m : String) : Option String :=
+  match baseMsg m with
   | "submitted" => some "submitted" | "started" => some "running" | "succeeded" => some "succeeded"
   | "failed" => some "failed" | "submission failed" => some "submit-failed" | _ => none
 
